@@ -4,7 +4,7 @@
 //!           "fuel": null|"<u64>", "ops": ["render","instructions","undeclared","ast","asks","sink"],
 //!           "sink": {"fail_at": k, "kind": "brokenpipe|other|wouldblock", "short": n},
 //!           "settings": {"trim_blocks":b,"lstrip_blocks":b,"keep_trailing_newline":b},
-//!           "recursion_limit": n, "debug": bool}
+//!           "recursion_limit": n, "debug": bool, "loader": {name: source | "!!ERR.."}, "path_join": bool}
 //! Each request runs on a fresh 2 MiB thread under catch_unwind with a watchdog; a hang makes
 //! the process print {"hang":true} and exit(3) so that the driver can restart after the case.
 use std::collections::BTreeMap;
@@ -122,6 +122,33 @@ fn run(req: &J) -> J {
     }
     if !load_errs.is_empty() {
         out.insert("load_errors".into(), json!(load_errs));
+    }
+    // "loader": {name: source} - templates served lazily through Environment::set_loader (a source that
+    // starts with "!!ERR" makes the loader itself fail); "path_join": true - relative template names
+    // ("./x", "../x") are joined with the referring template's name (the callback of the documentation)
+    if let Some(l) = req.get("loader").and_then(|x| x.as_object()) {
+        let map: BTreeMap<String, String> = l.iter().map(|(k, v)| (k.clone(), v.as_str().unwrap_or("").to_string())).collect();
+        env.set_loader(move |name| match map.get(name) {
+            Some(src) if src.starts_with("!!ERR") => Err(Error::new(minijinja::ErrorKind::InvalidOperation, "loader failed")),
+            Some(src) => Ok(Some(src.clone())),
+            None => Ok(None),
+        });
+    }
+    if req.get("path_join").and_then(|x| x.as_bool()).unwrap_or(false) {
+        env.set_path_join_callback(|name, parent| {
+            let mut rv = parent.split('/').collect::<Vec<_>>();
+            rv.pop();
+            name.split('/').for_each(|segment| match segment {
+                "." => {}
+                ".." => {
+                    rv.pop();
+                }
+                _ => {
+                    rv.push(segment);
+                }
+            });
+            rv.join("/").into()
+        });
     }
     let main = req.get("main").and_then(|x| x.as_str()).unwrap_or("main");
     let ops: Vec<&str> = req
